@@ -7,6 +7,7 @@ import Mathlib.Tactic.Ring
 import Mathlib.Tactic.Linarith
 import Mathlib.Tactic.FieldSimp
 import Mathlib.Algebra.Field.Rat
+import Mathlib.Algebra.Order.Ring.Rat
 import Mathlib.Tactic.NormNum
 import Mathlib.Tactic.FinCases
 
@@ -428,5 +429,66 @@ example : forward exRq exT exC (vecOfList 2 [1, 2]) 0 = forward exRq (fun _ => 0
 example : matVec (matOfRows 2 [[0, -1], [1, 0]] : Mat 2 Int) (vecOfList 2 [1, 0]) 0 ≠ vecOfList 2 [1, 0] 0 := by decide
 
 
+
+
+/-! ## `Density.rigid_transform`: the clean-up of interpolation noise does not depend on the absolute intensity
+
+The property is scale-free (the transform is linear: identity, grid permutation, shift and centre-of-mass rule hold for
+`s·f` iff they hold for `f`).  The wrapper's clean-up step compared `|v|` with machine epsilon *in absolute terms*
+(`cleanNoiseAbs`): maps of small absolute intensity were emptied (`cleanNoiseAbs_old_defect`).  After the repair the
+threshold is `eps · max|out|` (`cleanNoise`). -/
+section clean
+variable {K : Type} [Field K] [LinearOrder K] [IsStrictOrderedRing K]
+
+/-- the clean-up commutes with every positive rescaling of the map, for every threshold factor -/
+theorem cleanNoise_scale (eps s : K) (hs : 0 < s) (l : List K) :
+    cleanNoise eps (l.map (s * ·)) = (cleanNoise eps l).map (s * ·) := by
+  simp only [cleanNoise, absMax_scale s hs.le, List.map_map]
+  apply List.map_congr_left
+  intro v _
+  simp only [Function.comp]
+  have h : absV (s * v) < eps * (s * absMax l) ↔ absV v < eps * absMax l := by
+    rw [absV_eq_abs, absV_eq_abs, abs_mul, abs_of_pos hs, show eps * (s * absMax l) = s * (eps * absMax l) by ring]
+    exact mul_lt_mul_iff_right₀ hs
+  by_cases hv : absV v < eps * absMax l
+  · rw [if_pos (h.mpr hv), if_pos hv, mul_zero]
+  · rw [if_neg (fun h' => hv (h.mp h')), if_neg hv]
+
+/-- no voxel changes by more than `eps · max|out|` (float resolution of the largest value) -/
+theorem cleanNoise_error (eps : K) (h0 : 0 ≤ eps) (l : List K) (i : Nat) (h : i < l.length) :
+    |(cleanNoise eps l)[i]'(by simpa [cleanNoise] using h) - l[i]| ≤ eps * absMax l := by
+  simp only [cleanNoise, List.getElem_map]
+  by_cases hv : absV l[i] < eps * absMax l
+  · rw [if_pos hv, zero_sub, abs_neg, ← absV_eq_abs]; exact hv.le
+  · rw [if_neg hv, sub_self, abs_zero]; exact mul_nonneg h0 (absMax_nonneg l)
+
+omit [IsStrictOrderedRing K] in
+/-- values that are `0` or at least `eps · max|out|` in magnitude are kept: on data whose dynamic range is below
+`1/eps` the wrapper returns exactly what the backend wrote (so `grid_perm`, `identity_id`, `int_translation_shift`
+transfer to `Density.rigid_transform` unchanged) -/
+theorem cleanNoise_id (eps : K) (l : List K) (h : ∀ v ∈ l, v = 0 ∨ eps * absMax l ≤ absV v) : cleanNoise eps l = l := by
+  simp only [cleanNoise]
+  conv_rhs => rw [← List.map_id l]
+  apply List.map_congr_left
+  intro v hv
+  rcases h v hv with rfl | h'
+  · simp
+  · rw [if_neg (not_lt.mpr h')]; rfl
+
+end clean
+
+/-- before the repair: a float32 map (`eps = 2⁻²³`) with values `1·2⁻³⁰ … 9·2⁻³⁰` came back empty from the identity
+transform, although the backend had written it unchanged; the repaired step keeps it -/
+theorem cleanNoiseAbs_old_defect :
+    cleanNoiseAbs (1 / 8388608 : Rat) [1 / 1073741824, 9 / 1073741824] = [0, 0] ∧
+    cleanNoise (1 / 8388608 : Rat) [1 / 1073741824, 9 / 1073741824] = [1 / 1073741824, 9 / 1073741824] := by
+  constructor <;> decide +kernel
+
+example : cleanNoise (1 / 8 : Rat) ([1, 9, -2].map ((3 : Rat) * ·)) = (cleanNoise (1 / 8 : Rat) [1, 9, -2]).map ((3 : Rat) * ·) :=
+  cleanNoise_scale _ _ (by norm_num) _
+example : cleanNoise (1 / 8 : Rat) [1, 9, -2] = [0, 9, -2] := by decide +kernel
+example := cleanNoise_error (1 / 8 : Rat) (by norm_num) [1, 9, -2] 0 (by decide)
+example : cleanNoise (1 / 8388608 : Rat) [0, 3, -5, 9] = [0, 3, -5, 9] :=
+  cleanNoise_id _ _ (by decide +kernel)
 
 end Pm.C06
